@@ -1009,3 +1009,237 @@ func c09r8(rc *core.RC) {
 		rc.Unknown("decoder/backslash-refills", token.NoPos, "found %d in-string backslash clauses that refill (confirmed: skipObject, skipArray, skipValue, decodeKeyNotFoundStream)", n)
 	}
 }
+
+// ---- C09.R9 buffer and stream key-escape decoders consume the same bytes ----
+
+// cursorWalk follows every path of a function body and records, for each success return, how far
+// the cursor moved from entry, and for each unicodeToRune operand where it starts (relative to the
+// entry cursor) and how wide it is. The buffer sibling moves a parameter (`cursor += k`, returns
+// `cursor + k`); the stream sibling moves s.cursor. Loops may not move the cursor.
+type cursorWalk struct {
+	info    *types.Info
+	p       *core.Program
+	isCur   func(e ast.Expr) bool // is e the cursor (param or s.cursor)
+	retExpr func(r *ast.ReturnStmt) ast.Expr
+	deltas  []int64
+	hexOps  [][2]int64 // (start relative to entry, width)
+	bad     string
+}
+
+func (w *cursorWalk) constOf(e ast.Expr) (int64, bool) { return core.ConstInt(w.info, e) }
+
+// offsetOf evaluates e as cursor + c.
+func (w *cursorWalk) offsetOf(e ast.Expr) (int64, bool) {
+	e = core.Unparen(e)
+	if w.isCur(e) {
+		return 0, true
+	}
+	if be, ok := e.(*ast.BinaryExpr); ok && (be.Op == token.ADD || be.Op == token.SUB) {
+		l, lok := w.offsetOf(be.X)
+		r, rok := w.constOf(be.Y)
+		if lok && rok {
+			if be.Op == token.SUB {
+				return l - r, true
+			}
+			return l + r, true
+		}
+	}
+	return 0, false
+}
+
+func (w *cursorWalk) scanHex(n ast.Node, d int64) {
+	ast.Inspect(n, func(k ast.Node) bool {
+		c, ok := k.(*ast.CallExpr)
+		if !ok || core.CalleeName(w.info, c) != "decoder.unicodeToRune" || len(c.Args) != 1 {
+			return true
+		}
+		sl, ok := core.Unparen(c.Args[0]).(*ast.SliceExpr)
+		if !ok || sl.Low == nil || sl.High == nil {
+			w.bad = "unicodeToRune operand is not a two-bound slice"
+			return true
+		}
+		lo, ok1 := w.offsetOf(sl.Low)
+		hi, ok2 := w.offsetOf(sl.High)
+		if !ok1 || !ok2 {
+			w.bad = "unicodeToRune operand bounds are not cursor+constant"
+			return true
+		}
+		w.hexOps = append(w.hexOps, [2]int64{d + lo, hi - lo})
+		return true
+	})
+}
+
+// walk returns the set of cursor offsets with which control can fall out of list.
+func (w *cursorWalk) walk(list []ast.Stmt, in []int64) []int64 {
+	cur := in
+	for _, st := range list {
+		if len(cur) == 0 {
+			return nil
+		}
+		var next []int64
+		for _, d := range cur {
+			next = append(next, w.stmt(st, d)...)
+		}
+		cur = uniq64(next)
+	}
+	return cur
+}
+
+func uniq64(xs []int64) []int64 {
+	seen := map[int64]bool{}
+	var out []int64
+	for _, x := range xs {
+		if !seen[x] {
+			seen[x] = true
+			out = append(out, x)
+		}
+	}
+	return out
+}
+
+func (w *cursorWalk) stmt(st ast.Stmt, d int64) []int64 {
+	switch s := st.(type) {
+	case *ast.ReturnStmt:
+		if core.ReturnIsError(w.info, s) {
+			return nil
+		}
+		if e := w.retExpr(s); e != nil {
+			off, ok := w.offsetOf(e)
+			if !ok {
+				// delegation: return f(buf, cursor+k)
+				w.bad = "returned cursor is not cursor+constant: " + core.Src(w.p.Fset, e)
+				return nil
+			}
+			w.deltas = append(w.deltas, d+off)
+		} else {
+			w.deltas = append(w.deltas, d)
+		}
+		return nil
+	case *ast.AssignStmt:
+		w.scanHex(s, d)
+		if len(s.Lhs) == 1 && w.isCur(s.Lhs[0]) {
+			k, ok := w.constOf(s.Rhs[0])
+			switch {
+			case ok && s.Tok == token.ADD_ASSIGN:
+				return []int64{d + k}
+			case ok && s.Tok == token.SUB_ASSIGN:
+				return []int64{d - k}
+			default:
+				if off, ok := w.offsetOf(s.Rhs[0]); ok && s.Tok == token.ASSIGN {
+					return []int64{d + off}
+				}
+				w.bad = "cursor assigned a value that is not cursor+constant: " + core.Src(w.p.Fset, s)
+			}
+		}
+		return []int64{d}
+	case *ast.IncDecStmt:
+		if w.isCur(s.X) {
+			if s.Tok == token.INC {
+				return []int64{d + 1}
+			}
+			return []int64{d - 1}
+		}
+		return []int64{d}
+	case *ast.IfStmt:
+		if s.Init != nil {
+			w.scanHex(s.Init, d)
+		}
+		w.scanHex(s.Cond, d)
+		outs := w.walk(s.Body.List, []int64{d})
+		switch e := s.Else.(type) {
+		case nil:
+			outs = append(outs, d)
+		case *ast.BlockStmt:
+			outs = append(outs, w.walk(e.List, []int64{d})...)
+		default:
+			outs = append(outs, w.stmt(e, d)...)
+		}
+		return uniq64(outs)
+	case *ast.ForStmt:
+		// refill loops: the body may leave with an error, it may not move the cursor
+		outs := w.walk(s.Body.List, []int64{d})
+		for _, o := range outs {
+			if o != d {
+				w.bad = "a loop moves the cursor"
+			}
+		}
+		return []int64{d}
+	case *ast.BlockStmt:
+		return w.walk(s.List, []int64{d})
+	case *ast.BranchStmt:
+		if s.Tok == token.BREAK || s.Tok == token.CONTINUE {
+			return []int64{d}
+		}
+		w.bad = "goto in a key-escape decoder"
+		return []int64{d}
+	case *ast.DeclStmt, *ast.ExprStmt, *ast.EmptyStmt:
+		w.scanHex(s, d)
+		return []int64{d}
+	}
+	w.bad = fmt.Sprintf("statement %T not modelled", st)
+	return []int64{d}
+}
+
+func c09r9(rc *core.RC) {
+	p := rc.P
+	bfd, sfd := p.Func("decoder", "decodeKeyCharByUnicodeRune"), p.Func("decoder", "decodeKeyCharByUnicodeRuneStream")
+	key := "decoder.decodeKeyCharByUnicodeRune~Stream/cursor-deltas"
+	if bfd == nil || sfd == nil {
+		rc.Unknown(key, token.NoPos, "siblings not found")
+		return
+	}
+	rc.Touch("decoder.decodeKeyCharByUnicodeRune")
+	rc.Touch("decoder.decodeKeyCharByUnicodeRuneStream")
+	// buffer sibling: the int64 parameter is the cursor, returned as the second result
+	binfo := p.Info(bfd)
+	var curObj types.Object
+	for _, f := range bfd.Type.Params.List {
+		for _, nm := range f.Names {
+			if o := binfo.Defs[nm]; o != nil && o.Type().String() == "int64" {
+				curObj = o
+			}
+		}
+	}
+	bw := &cursorWalk{info: binfo, p: p,
+		isCur: func(e ast.Expr) bool { return curObj != nil && core.ObjOf(binfo, e) == curObj },
+		retExpr: func(r *ast.ReturnStmt) ast.Expr {
+			if len(r.Results) == 3 {
+				return r.Results[1]
+			}
+			return nil
+		}}
+	bw.walk(bfd.Body.List, []int64{0})
+	sinfo := p.Info(sfd)
+	sw := &cursorWalk{info: sinfo, p: p,
+		isCur: func(e ast.Expr) bool {
+			f := core.FieldOf(sinfo, e)
+			return f != nil && f.Name() == "cursor"
+		},
+		retExpr: func(r *ast.ReturnStmt) ast.Expr { return nil }}
+	sw.walk(sfd.Body.List, []int64{0})
+	if bw.bad != "" || sw.bad != "" {
+		rc.Unknown(key, bfd.Pos(), "cursor arithmetic not in the modelled form: %s %s", bw.bad, sw.bad)
+		return
+	}
+	sortI := func(xs []int64) []int64 { sort.Slice(xs, func(i, j int) bool { return xs[i] < xs[j] }); return xs }
+	bd, sd := sortI(bw.deltas), sortI(sw.deltas)
+	rc.Check(fmt.Sprint(bd) == fmt.Sprint(sd), key, sfd.Pos(), "cursor movement per success return: buffer %v, stream %v (bytes from the first hex digit to the last byte consumed); they must agree or a Decoder and Unmarshal continue at different bytes after the same escape", bd, sd)
+	// operands of unicodeToRune: four digits, at the same places
+	hkey := "decoder.decodeKeyCharByUnicodeRune~Stream/hex-operands"
+	okW := true
+	for _, h := range append(append([][2]int64{}, bw.hexOps...), sw.hexOps...) {
+		if h[1] != 4 {
+			okW = false
+		}
+	}
+	rc.Check(okW && fmt.Sprint(bw.hexOps) == fmt.Sprint(sw.hexOps) && len(bw.hexOps) >= 2, hkey, sfd.Pos(), "unicodeToRune operands (start relative to the first hex digit, width): buffer %v, stream %v; each must be 4 bytes wide and both siblings must read the same places", bw.hexOps, sw.hexOps)
+	// the position contract: both end on the last byte of what they consumed: 3 for one escape, 9 for a pair
+	ckey := "decoder.decodeKeyCharByUnicodeRune~Stream/ends-on-last-byte"
+	okC := len(bd) > 0
+	for _, d := range bd {
+		if d != 3 && d != 9 {
+			okC = false
+		}
+	}
+	rc.Check(okC, ckey, bfd.Pos(), "every success return leaves the cursor on the last byte of a 4-digit escape (+3) or of a surrogate pair (+9); got %v", bd)
+}
